@@ -167,3 +167,22 @@ Proof.
   intros Hv x. pose proof (frun_inv es fzero finv_zero Hv) as [Hr Hl HD Hn Hlo Hhi Hov]. fold x in Hr, Hl, HD, Hn, Hlo, Hhi, Hov.
   split; [exact Hov|]. intros Hz. unfold fowed in *. rewrite Hz in *. pose proof P18_pos. nia.
 Qed.
+
+(** the model's CaclRewards IS the [Act] event, rule by rule: position [i] of the result is [pay_of] / [new_debt]
+    of rule [i] and debt [i] (a missing debt counts as 0) *)
+Lemma nth_tl (ds : list Z) i : nth i (tl ds) 0 = nth (S i) ds 0.
+Proof. destruct ds; simpl; [destruct i; reflexivity|reflexivity]. Qed.
+
+Lemma cacl_is_act rs : forall l ds delta rw db i r0,
+  cacl rs l ds delta = Some (rw, db) -> (i < length rs)%nat ->
+  let r := nth i rs r0 in
+  nth i rw (0, 0) = (r_denom r, pay_of (r_rps r) l (nth i ds 0))
+  /\ nth i db 0 = new_debt (r_rps r) l (nth i ds 0) delta.
+Proof.
+  induction rs as [|r rs IH]; simpl; intros l ds delta rw db i r0; [intros _ Hi; inversion Hi|].
+  destruct (new_debt _ _ _ _ <? 0); [discriminate|].
+  destruct (cacl rs l _ delta) as [[rw' db']|] eqn:E; [|discriminate].
+  intros H Hi; inversion H; subst. destruct i as [|i]; simpl.
+  - destruct ds; simpl; auto.
+  - destruct (IH _ _ _ _ _ i r0 E ltac:(lia)) as [H1 H2]. fold (tl ds) in H1, H2. rewrite nth_tl in H1, H2. auto.
+Qed.
